@@ -70,6 +70,14 @@ impl SessionS {
     pub fn on_incoming_flow(&mut self, flow: Flow) -> (r: Result<Option<SessionOutgoingItem>, SessionInnerError>) { unimplemented!() }
     #[verifier::external_body]
     pub fn on_incoming_transfer(&mut self, transfer: Transfer, payload: Payload) -> (r: Result<Option<Disposition>, SessionInnerError>) { unimplemented!() }
+    /// Session::on_incoming_detach (unit SESSION, [C15.detach.unattached] / [C13.link.peer-detach-not-fatal])
+    #[verifier::external_body]
+    pub fn on_incoming_detach(&mut self, detach: Detach) -> (r: Result<(), SessionInnerError>)
+        ensures
+            final(self).link_by_input_handle@ == old(self).link_by_input_handle@.remove(detach.handle.0),
+            old(self).link_by_input_handle@.contains_key(detach.handle.0) ==> r is Ok,
+            !old(self).link_by_input_handle@.contains_key(detach.handle.0) ==> r is Err && r->Err_0 is UnattachedHandle,
+    { unimplemented!() }
     /// Session::allocate_incoming_link (unit SESSION): on Ok the relay is registered under the peer's handle
     #[verifier::external_body]
     pub fn allocate_incoming_link(&mut self, link_name: String, link_handle: LinkRelayIn, input_handle: InputHandle) -> (r: Result<OutputHandle, AllocLinkError>)
@@ -90,7 +98,9 @@ impl View for PendingFlows { type V = Map<u32, Seq<LinkFlow>>; uninterp spec fn 
 pub fn pending_push(m: &mut PendingFlows, h: InputHandle, f: LinkFlow)
     ensures final(m)@ == old(m)@.insert(h.0, (if old(m)@.contains_key(h.0) { old(m)@[h.0] } else { Seq::<LinkFlow>::empty() }).push(f)),
 { unimplemented!() }
-pub struct ListenerSession { pub session: SessionS, pub pending_link_flows: PendingFlows }
+/// `pending_attach` (ghost): the peer's handles whose attach has been queued for the application's LinkAcceptor (link_listener) and not been accepted yet -- they are registered in link_by_input_handle only by allocate_incoming_link
+pub struct ListenerSession { pub session: SessionS, pub pending_link_flows: PendingFlows, pub pending_attach: Ghost<Set<u32>> }
+pub struct Detach { pub handle: Handle, pub closed: bool }
 
 impl ListenerSession {
 //@@ fn file=fe2o3-amqp/src/acceptor/session.rs impl=`impl endpoint::Session for ListenerSession` name=on_incoming_flow
@@ -114,6 +124,14 @@ impl ListenerSession {
     ensures
         final(self).pending_link_flows@ == old(self).pending_link_flows@,
         r is Err ==> !(r->Err_0 is UnattachedHandle),            // [C15.listener.unattached-not-fatal] a transfer for a handle that is not attached is ignored (nothing is delivered, nothing answered), the session goes on
+//@@ end
+//@@ fn file=fe2o3-amqp/src/acceptor/session.rs impl=`impl endpoint::Session for ListenerSession` name=on_incoming_detach
+//@@ ret Result<(), SessionInnerError>
+//@@ spec
+    requires
+        forall|h: u32| old(self).pending_attach@.contains(h) ==> !old(self).session.link_by_input_handle@.contains_key(h),
+    ensures
+        old(self).pending_attach@.contains(detach.handle.0) ==> r is Ok,      // [C13.listener.detach-for-pending-attach-not-fatal] a peer may pipeline attach and detach before the application has accepted the link (fire-and-forget clients do; the listener already keeps pipelined flows and ignores pipelined transfers for that reason): such a detach is not an `unattached-handle` error that ends the whole session -- it has to be remembered and answered in kind once the attach is taken up
 //@@ end
 //@@ fn file=fe2o3-amqp/src/acceptor/session.rs impl=`impl endpoint::Session for ListenerSession` name=allocate_incoming_link
 //@@ ret Result<OutputHandle, AllocLinkError>
